@@ -65,6 +65,12 @@ P = {
          "recorded as known finding D16; implementation checked for P14 and for the resync bound on every generated run.",
          "partial for the resynchronisation clause: proved for delimiter-free noise; for arbitrary noise it is checked on the implementation "
          "for frames without an interior 0x68 and is a known finding otherwise. Producer-loop survival is checked under C09."),
+ "C20": ("Theorems over all finite call sequences (induction, closed): C20_on_change, C20_debounce, C20_throttle (deliveries are exactly those the "
+         "monitor of the promise allows, values unmodified and in order), C20_throttle_gaps (consecutive deliveries at least the interval apart), "
+         "C20_delta (delivered differences sum to last baseline - first value, current value within tolerance of the baseline), C20_aggregate "
+         "(delivered sums + pending remainder = sum of inputs), C20_chain (the inner filter of a chain sees exactly the outer filter's deliveries); "
+         "real filters run the same sequences with time.monotonic patched, compared delivery by delivery.",
+         "numbers are dyadic rationals (multiples of 1/64) of bounded magnitude, on which CPython float arithmetic and isclose are exact; behaviour under float rounding of arbitrary doubles is modelled, not verified."),
 }
 
 def main():
